@@ -340,8 +340,8 @@ def fileWriteLoop (dbs doff : Nat) : (fuel : Nat) → (h : FileH) → (buf : Byt
       if h.pos % dbs = 0 then
         if h.pos = h.byteSize then
           let (rc, h) ← fileCreateNextBlock h
-          let h := { h with changed := false }
           if rc ≠ rcOK then return (false, h)
+          let h := { h with changed := false }
           return (true, { h with posInDataBlk := 0 })
         else if h.posInDataBlk = dbs then
           let h ← (do
